@@ -47,10 +47,7 @@ def r_C09(root):
     ob("C09", "C09.c", M, "parse_tree_to_objgraph", "if %s > 0: ... raise" % uc, okc)
     if not okc:
         out.append(Finding("C09", "C09.c", M, "parse_tree_to_objgraph", ast.unparse(after)[:80] if after is not None else "", "no failure after a round without progress"))
-    else:
-        outer = next((n for n in ast.walk(after) if isinstance(n, ast.For)), None)
-        if ml is not None and (outer is None or ast.unparse(outer.iter) != ast.unparse(ml.iter)):
-            out.append(Finding("C09", "C09.c", M, "parse_tree_to_objgraph", ast.unparse(outer.iter) if outer else "", "error message iterates %s but the unresolved count iterates %s" % (ast.unparse(outer.iter) if outer else None, ast.unparse(ml.iter))))
+    # (which lists the report iterates is decided by evaluation: C09.d, sa/rules/cmisc.py)
     return inst, out
 def r_C08_C34(root):
     R = RS.roles(root); fn, loop = R.fn, R.loop; out = []; inst = 0
@@ -366,32 +363,45 @@ def r_C28b_C33b_C30bc(root):
         inst += 1
         kws = {k.arg for k in r.exc.keywords}
         if kws and {"line", "col", "filename"} - kws: out.append(Finding("C28", "C28.b", "textx/scoping/providers.py", "PlainName.__call__", " ".join(ast.unparse(r).split())[:90], "partial location on the non-unique error"))
-    # C33.b
-    cp = find(t, "parse_tree_to_objgraph.call_obj_processors")
-    for c in [c for c in calls(cp, own=True) if callee_name(c) == "process"]:
+    # C33.b  (the dispatch in call_obj_processors is decided by evaluation in sa/rules/c13.py)
+    # textxerror_wrap by evaluation: the wrapper is interpreted with processors that return / raise
+    from sa import pyeval as _pe
+    tw = find(t, "textxerror_wrap.wrapper"); tw_outer = find(t, "textxerror_wrap")
+    p_obj = tw.args.args[0].arg if tw.args.args else None
+    p_proc = tw_outer.args.args[0].arg
+    if p_obj is None: raise AnalysisError("textxerror_wrap.wrapper takes no object")
+    LOC = {"line": 3, "col": 4, "nchar": 5, "filename": "obj.file"}
+    def _mkerr(message=None, line=None, col=None, err_type=None, expected_obj_cls=None, filename=None, nchar=None, **kw):
+        return {".kind": "error", ".message": message, ".line": line, ".col": col, ".filename": filename, ".nchar": nchar}
+    def _run_wrapper(obj, proc):
+        env = {"__functions__": {k_: v_ for k_, v_ in helper_functions(root, M, "textxerror_wrap.wrapper").items() if k_ not in ("get_location", "wrapper", "textxerror_wrap")}, p_obj: obj, p_proc: _pe.PyFn(proc),
+               "get_location": _pe.PyFn(lambda o: dict(LOC)), "TextXError": _pe.PyFn(_mkerr), "__classes__": {"TextXError": lambda v: isinstance(v, dict) and str(v.get(".cls", "")).startswith("TextX"), "Exception": lambda v: True}}
+        try: return ("ret", _pe.run_block(tw.body, env))
+        except _pe.Raised as r_: return ("raise", r_)
+        except _pe.Unsupported as u_: raise AnalysisError("textxerror_wrap.wrapper: outside the evaluated subset: %s" % u_)
+    located = {".kind": "obj", "._tx_position": 7, "._tx_position_end": 12, "._tx_filename": "obj.file"}; bare_obj = {".kind": "obj"}
+    def _raiser(cls):
+        def f(o): raise _pe.Raised(cls)
+        return f
+    def rep33(ok, what, msg, props_=("C33",)):
+        nonlocal inst
         inst += 1
-        star = [ast.unparse(k.value) for k in c.keywords if k.arg is None]
-        ok = any(s == "get_location(model_obj)" for s in star) or (star == ["loc"] and any(isinstance(n, ast.Assign) and ast.unparse(n) == "loc = get_location(model_obj)" for n in own_nodes(cp)))
-        if not ok: out.append(Finding("C33", "C33.b", M, "call_obj_processors", ast.unparse(c)[:90], "object processor dispatched without the object's location"))
-    tw = find(t, "textxerror_wrap.wrapper"); inst += 1
-    tr_ = next((s_ for s_ in tw.body if isinstance(s_, ast.Try)), None)
-    if tr_ is None: raise AnalysisError("textxerror_wrap: try block not found")
-    broad = next((h for h in tr_.handlers if h.type is None or ast.unparse(h.type) in ("Exception", "BaseException")), None)
-    if broad is None: raise AnalysisError("textxerror_wrap: handler for non-textX exceptions not found")
-    dedicated = [h for h in tr_.handlers[:tr_.handlers.index(broad)] if h.type is not None and "TextXError" in ast.unparse(h.type)]
-    for h in dedicated:
-        if not (len(h.body) == 1 and isinstance(h.body[0], ast.Raise) and h.body[0].exc is None):
-            out.append(Finding("C33", "C33.b", M, "textxerror_wrap", " ".join(ast.unparse(h).split())[:80], "TextXError from the processor is not re-raised unchanged"))
-    names, rows = atoms.table(broad.body, feasible=None)
-    for r in rows:
-        isx = next((a for a in names if a.startswith("isinstance(%s, TextXError" % (broad.name or "e"))), None)
-        if isx is None and not dedicated:
-            out.append(Finding("C33", "C33.b", M, "textxerror_wrap", "except %s" % (ast.unparse(broad.type) if broad.type else ""), "a TextXError raised by the processor is wrapped again instead of being re-raised unchanged")); break
-        if isx is not None and r.val.get(isx):
-            if r.exit_text().strip() != "raise": out.append(Finding("C33", "C33.b", M, "textxerror_wrap", r.exit_text(), "TextXError from the processor is not re-raised unchanged")); break
-        else:
-            pos = [a for a in names if "hasattr(obj" in a]
-            if all(r.val.get(a) for a in pos) and "get_location(obj)" not in r.exit_text(): out.append(Finding("C33", "C33.b", M, "textxerror_wrap", r.exit_text()[:80], "wrapped error carries no location")); break
+        for pr in props_:
+            ob(pr, "C33.b", M, "textxerror_wrap", what, ok)
+            if not ok: out.append(Finding(pr, "C33.b", M, "textxerror_wrap", what, msg))
+    k, v = _run_wrapper(located, lambda o: "replacement")
+    inst += 1; okv_ = k == "ret" and v == "replacement"
+    ob("C13", "C13.f", M, "textxerror_wrap", "the processor's return value is passed on", okv_)
+    if not okv_: out.append(Finding("C13", "C13.f", M, "textxerror_wrap", "return value of the wrapped processor", "a wrapped processor returns 'replacement', the wrapper %s: the value a processor returns replaces the object in the model" % ("returns %r" % (v,) if k == "ret" else "raises %s" % v.cls)))
+    k, v = _run_wrapper(located, _raiser("ValueError"))
+    okw = k == "raise" and v.cls == "TextXError" and isinstance(v.value, dict) and {f_: v.value["." + f_] for f_ in LOC} == LOC
+    rep33(okw, "a foreign exception becomes a TextXError located at the object", "a processor raising ValueError on an object that has a position: the wrapper %s; documented: a TextXError carrying line, col, nchar and filename of get_location(obj)" % ("raises %s with location %s" % (v.cls, {f_: v.value.get("." + f_) for f_ in LOC} if isinstance(v.value, dict) else "unknown") if k == "raise" else "returns"), props_=("C33", "C30"))
+    k, v = _run_wrapper(bare_obj, _raiser("ValueError"))
+    rep33(k == "raise" and v.cls == "TextXError", "a foreign exception on an object without position becomes a TextXError", "a processor raising ValueError on a value without position (match-rule value): the wrapper %s; documented: a TextXError (located later by the caller)" % ("raises %s" % v.cls if k == "raise" else "returns"))
+    orig = _pe.Raised("TextXSemanticError"); orig.value = {".cls": "TextXSemanticError", ".message": "m", ".line": 1, ".col": 2, ".nchar": None, ".filename": "processor.file"}; before_ = dict(orig.value)
+    def _raise_orig(o): raise orig
+    k, v = _run_wrapper(located, _raise_orig)
+    rep33(k == "raise" and v is orig and orig.value == before_, "a TextXError of the processor passes unchanged", "a processor raising TextXSemanticError: the wrapper %s; documented: the very same error is re-raised (its own location and type are kept)" % (("changes its location fields to %s" % {f_: orig.value.get("." + f_) for f_ in ("line", "col", "filename")} if v is orig else "raises another error (%s)" % v.cls) if k == "raise" else "returns"))
     # C30.b/c
     G = "textx/cli/generate.py"; g = load(root, G); gen = find_i(root, G, "generate.generate.generate")
     inst += 2
